@@ -88,7 +88,7 @@ PROPERTIES = {
     "C07": {
         "harness_modules": ["contracts.assume"],
         "harness_filter": only("AtLeast.assume", "variable.assume", "lemma.ival_wf", "lemma.refine"),
-        "rt": ["rt.logic:history_sequences"],
+        "rt": ["rt.logic:c07_assume_compose", "rt.logic:history_sequences"],
         "level": "proof",
         "assumptions": S_ALL,
         "explanation": "AtLeast.assume / variable.assume (real source) against post.c07: for every further interpretation e of "
@@ -104,7 +104,7 @@ PROPERTIES = {
     },
     "C09": {
         "harness_modules": ["contracts.c09"],
-        "rt": ["rt.config:c09_purity", "rt.config:c09_configurator_cache", "rt.logic:history_sequences"],
+        "rt": ["rt.config:c09_purity", "rt.config:c09_configurator_purity", "rt.config:c09_configurator_cache", "rt.logic:history_sequences"],
         "level": "other",
         "assumptions": S_ALL,
         "explanation": "deductive (input-free) frame obligations: every feasible path of negate / assume / variable.assume / "
